@@ -547,6 +547,11 @@ class FuncAnalysis:
             return
 
     def handle_call(self, c: ast.Call):
+        # reflective attribute writes count as attribute stores
+        if isinstance(c.func, ast.Name) and c.func.id in ("setattr", "delattr") and c.args:
+            b = self.val(c.args[0])
+            if b.k in ("P", "PAR"):
+                self.note_write(c, b, f"reflective `{ast.unparse(c)[:60]}`")
         # mutator method on protected receiver
         if isinstance(c.func, ast.Attribute) and c.func.attr in MUTATORS:
             recv = self.val(c.func.value)
